@@ -97,7 +97,8 @@ class Server:
         return self.proc.poll() is None
 
     def wait_ready(self, timeout=20.0):
-        probe = bytes.fromhex("beef01000001000000000000") + b"\x05probe\x07invalid\x00\x00\x01\x00\x01"
+        # a STATUS request: answered NOTIMP at once in every mode (an ordinary query might wait for an upstream)
+        probe = bytes.fromhex("beef10000001000000000000") + b"\x05probe\x07invalid\x00\x00\x01\x00\x01"
         t0 = time.time()
         while time.time() - t0 < timeout:
             if not self.alive():
